@@ -16,6 +16,8 @@ mod env;
 mod c08;
 mod c12;
 mod codec;
+mod sym;
+mod c09;
 mod c19;
 
 fn main() {
@@ -42,6 +44,9 @@ fn main() {
         ["c01", "record", runs, path] => codec::record_c01(runs.parse().unwrap(), path),
         ["c02", "record", runs, path] => codec::record_c02(runs.parse().unwrap(), path),
         ["c02", "replay", path] => codec::replay_c02(path),
+        ["c09", "replay", path] => c09::replay(path),
+        ["c09", "record", runs, path] => c09::record(runs.parse().unwrap(), path),
+        ["c09", "concretise", terms, trace] => c09::concretise(terms, trace),
         _ => {
             eprintln!("usage: vh <prop> <replay|record> ...");
             std::process::exit(2);
